@@ -163,7 +163,7 @@ def rule_stat(ctx, rid):
             continue
         nret += 1
         v = e.value
-        if not (v[0] == 's' and v[1].startswith('out@F')):
+        if not (v[0] == 's' and '@F' in v[1]):
             short = (e, 'a path returns %s without the per-label loop (conditions: %s)'
                      % (show(v)[:50], '; '.join('%s=%s' % (show(cn)[:50], t) for cn, t, _ in e.state.conds[-3:])))
     if short:
